@@ -22,8 +22,8 @@ using namespace IMATH_NAMESPACE;
 namespace
 {
 
-// calibrated constants: worst ratios observed on the pristine tree over 1.2e7 cases per sub-check
-// (thorough tier, seeds 1-2): recompose 1.42, orthonormality 1.45, orders 1.27, computeRSMatrix 1.64
+// calibrated constants: worst ratios observed on the pristine tree over >= 1.2e7 cases per sub-check
+// (thorough tier, seeds 1-2): recompose 1.48, orthonormality 1.49, orders 1.27, computeRSMatrix 1.73
 const LD C_RECOMPOSE = 16;   // recomposition from Euler angles / from the returned rotation matrix
 const LD C_ORTH      = 16;   // orthonormality and determinant of the residual rotation
 const LD C_SAME      = 4;    // same factor through another entry point (relative, in eps)
